@@ -8,22 +8,22 @@ package criteria_mixing
 //@ spec mixed(r real, a real, b real) real = a * r + b * (1.0 - r)
 
 //@ func (*CriteriaMixingParams).validate
-//@   property C18 C20
+//@   property C18 C20 C07
 //@   panics_iff [ratio] !(0.0 <= p.MixingRatio && p.MixingRatio <= 1.0)
 
 //@ func selectCriteriaToMix
-//@   property C18
+//@   property C18 C07 C20
 //@   fnparam generator ensures 0.0 <= result && result < 1.0
 //@   requires len(params.Criteria) >= 2
 //@   ensures [two_distinct] exists i int, j int :: 0 <= i && i < len(params.Criteria) && 0 <= j && j < len(params.Criteria) && i != j
 //@             && result.c1 == params.Criteria[i] && result.c2 == params.Criteria[j]
 
 //@ func (*criteriaToMix).criterion
-//@   property C18
+//@   property C18 C07 C20
 //@   ensures [gain_with_target_range] result.Type == model.Gain && result.ValuesRange == valRange
 
 //@ func (*criteriaToMix).mix
-//@   property C18
+//@   property C18 C07 C20
 //@   ensures [components] result.c1 != nil && result.c2 != nil && fresh(result) && fresh(result.result)
 //@   ensures [formula] forall a string :: a in result.c1 ==> a in result.c2 && a in result.result && result.result[a] == mixed(props.MixingRatio, result.c1[a], result.c2[a])
 //@   ensures [only] forall a string :: a in result.result ==> a in result.c1
@@ -40,13 +40,13 @@ package criteria_mixing
 //@   ensures  model.rescaled(c, v, cur, (tgt.Max - tgt.Min) / (cur.Max - cur.Min), tgt) <= tgt.Max
 
 //@ func referenceCriterion
-//@   property C18
+//@   property C18 C07 C20
 //@   requires model.distinctCriteria(params.Criteria) && len(params.Criteria) > 0
 //@   requires model.validParams(*listener, params.MethodParameters) && model.coversAll(*listener, params.MethodParameters, params.Criteria)
 //@   ensures [is_existing_criterion] result != nil && exists j int :: 0 <= j && j < len(params.Criteria) && *result == params.Criteria[j]
 
 //@ func updateAlternatives
-//@   property C18 C07
+//@   property C18 C07 C20
 //@   ensures [shape] fresh(result) && fresh(*result) && len(*result) == len(allAlternatives)
 //@   ensures [extended] forall i int :: 0 <= i && i < len(allAlternatives) ==> model.extendedBy((*result)[i], allAlternatives[i], newCriterion.Id) && fresh((*result)[i].Criteria)
 
